@@ -22,6 +22,7 @@ package relationtuple
 
 //@ func Manager.GetRelationTuples
 //@   trusted
+//@   requires query != nil
 //@   modifies faulted
 //@   ensures faulted == (old(faulted) || result2 != nil)
 //@   ensures forall i in 0..len(result0) :: result0[i] != nil && wfsubject(result0[i].Subject)
@@ -45,3 +46,18 @@ package relationtuple
 //@   modifies db
 //@   ensures[C17] read-only-mapper: m.ReadOnly ==> db == old(db)
 //@   ensures err == nil ==> len(res) == len(ts) && (forall i in 0..len(res) :: res[i] != nil)
+
+//@ func (*Mapper).FromSubjectSet
+//@   trusted
+//@   requires m != nil && ctx != nil
+//@   requires[C13] set-present: set != nil
+//@   modifies db
+//@   ensures[C17] read-only-mapper: m.ReadOnly ==> db == old(db)
+//@   ensures err == nil ==> result0 != nil
+
+//@ func (*Mapper).ToTree
+//@   trusted
+//@   requires m != nil && ctx != nil && tree != nil
+//@   modifies db
+//@   ensures db == old(db)
+//@   ensures err == nil ==> res != nil
